@@ -164,7 +164,64 @@ func genComparators(r *rand.Rand, ops []string, npm bool) []Comparator {
 	return cs
 }
 
+// genAbutting: two `||` alternatives that meet (abut, overlap, or leave a one-version gap) at a
+// bound that may carry a prerelease tag, with plain or tagged outer ends; optionally a third
+// alternative. These are the shapes canon's merge guards decide about.
+func genAbutting(r *rand.Rand) Range {
+	full := func(a, b, c int64, pre []Ident) Partial {
+		return Partial{Nums: []int64{a, b, c}, Wild: []byte{0, 0, 0}, Pre: pre}
+	}
+	maybePre := func(p int) []Ident {
+		if r.Intn(p) == 0 {
+			return nil
+		}
+		return genPre(r)
+	}
+	M := int64(r.Intn(3))
+	lo := full(M, int64(r.Intn(2)), 0, nil)
+	mid := full(M+1, int64(r.Intn(2)), int64(r.Intn(2)), maybePre(4))
+	hi := full(M+2+int64(r.Intn(2)), 0, 0, nil)
+	if r.Intn(4) == 0 {
+		lo.Pre = genPre(r)
+	}
+	if r.Intn(4) == 0 {
+		hi.Pre = genPre(r)
+	}
+	mid2 := mid
+	switch r.Intn(6) {
+	case 0:
+		mid2.Pre = maybePre(3) // another tag (or none) on the same numbers
+	case 1:
+		mid2 = relatedPartial(r, mid)
+	}
+	mk := func(l, h Partial, lops, hops []string) Alt {
+		if r.Intn(3) == 0 {
+			return Alt{Hyphen: true, Lo: l, Hi: h}
+		}
+		return Alt{Comps: []Comparator{{Op: lops[r.Intn(len(lops))], P: l}, {Op: hops[r.Intn(len(hops))], P: h}}}
+	}
+	a1 := mk(lo, mid, []string{">=", ">", ">="}, []string{"<", "<=", "<"})
+	a2 := mk(mid2, hi, []string{">=", ">", ">="}, []string{"<", "<=", "<"})
+	if r.Intn(5) == 0 { // open-ended second alternative
+		a2 = Alt{Comps: []Comparator{{Op: pickS(r, ">=", ">"), P: mid2}}}
+	}
+	alts := []Alt{a1, a2}
+	if r.Intn(2) == 0 {
+		alts[0], alts[1] = alts[1], alts[0]
+	}
+	if r.Intn(4) == 0 {
+		alts = append(alts, Alt{Comps: genComparators(r, npmOps, true)})
+	}
+	for i := range alts {
+		alts[i].OrSt = r.Intn(4)
+	}
+	return Range{Alts: alts}
+}
+
 func genNpmRange(r *rand.Rand) Range {
+	if r.Intn(10) == 0 {
+		return genAbutting(r)
+	}
 	n := 1
 	switch r.Intn(10) {
 	case 0, 1, 2:
@@ -186,6 +243,31 @@ func genNpmRange(r *rand.Rand) Range {
 			}
 		} else {
 			a.Comps = genComparators(r, npmOps, true)
+		}
+		// alternatives that share an end point with an earlier alternative (identical operand,
+		// prerelease tag included, or a related one): abutting and overlapping `||` spans are
+		// what canon's merge rules are about
+		if i > 0 && r.Intn(2) == 0 {
+			prev := rg.Alts[r.Intn(len(rg.Alts))]
+			var ops []Partial
+			if prev.Hyphen {
+				ops = []Partial{prev.Lo, prev.Hi}
+			} else {
+				for _, c := range prev.Comps {
+					ops = append(ops, c.P)
+				}
+			}
+			if len(ops) > 0 {
+				q := ops[r.Intn(len(ops))]
+				if r.Intn(3) == 0 {
+					q = relatedPartial(r, q)
+				}
+				if a.Hyphen {
+					a.Lo = q
+				} else if len(a.Comps) > 0 {
+					a.Comps[r.Intn(len(a.Comps))].P = q
+				}
+			}
 		}
 		rg.Alts = append(rg.Alts, a)
 	}
